@@ -139,6 +139,7 @@ theorem crash_spec_is_contiguous_range (old : List Entry) (op : Op) (r : List En
   | setCommit v => exact Or.inl ⟨0, _, h.trans hall⟩
   | timer => exact Or.inl ⟨0, _, h.trans hall⟩
   | reopen => exact Or.inl ⟨0, _, h.trans hall⟩
+  | setTermVote => exact Or.inl ⟨0, _, h.trans hall⟩
 
 /-- After a kill at ANY crash point of ANY operation (head drop included) the reopened journal is
 again a correct file journal: every further operation sequence within the limits refines the list
@@ -231,6 +232,19 @@ theorem meta_persisted (ver : Bytes) (hver : ver.length ≤ 8) (ops : List Op) (
       openDisk ver j.disk = .ok (j', []) ∧ j'.commitIndex = v ∧ j'.entries = runList [] ops := by
   obtain ⟨j0, h1, h2⟩ := run_reach (create_reach ver hver) ops hok
   obtain ⟨j1, p1, j2, p2, jc, a1, a2, a3, a4, a5⟩ := set_timer_persists h2 v
+  rw [run_ver (create_reach ver hver) ops j0 h1] at a3
+  refine ⟨j2, jc, ?_, a3, a4, a5⟩
+  rw [run_append, h1]
+  simp only [run, a1, a2]
+
+/-- A commit index that was set and then stored by `setTermAndVote` (which writes the whole meta dict at once) is the one a reopen reports
+(and the entries are untouched). -/
+theorem meta_persisted_by_term_vote (ver : Bytes) (hver : ver.length ≤ 8) (ops : List Op) (v : Nat)
+    (hok : OkFrom [] ops) :
+    ∃ j j', run (create ver) (ops ++ [.setCommit v, .setTermVote]) = .ok j ∧
+      openDisk ver j.disk = .ok (j', []) ∧ j'.commitIndex = v ∧ j'.entries = runList [] ops := by
+  obtain ⟨j0, h1, h2⟩ := run_reach (create_reach ver hver) ops hok
+  obtain ⟨j1, p1, j2, p2, jc, a1, a2, a3, a4, a5⟩ := set_termvote_persists h2 v
   rw [run_ver (create_reach ver hver) ops j0 h1] at a3
   refine ⟨j2, jc, ?_, a3, a4, a5⟩
   rw [run_append, h1]
